@@ -46,3 +46,20 @@ func TestReproCapOverMemDBLosesNodes(t *testing.T) {
 		t.Fatalf("unexpected error type %T", err)
 	}
 }
+
+// Observation (not reported as a violation; see the rig's first assumption):
+// iteration order is the trie's nibble order with the end of a key sorting
+// after every nibble, so a key comes AFTER its proper extensions.
+func TestObservationIterationOrderOfPrefixKeys(t *testing.T) {
+	log.Root().SetHandler(log.DiscardHandler())
+	tr, _ := trie.New(common.EmptyHash, trie.NewDatabase(dbm.NewMemDB()))
+	for _, k := range []string{"do", "dog", "doge", "", "d"} {
+		tr.TryUpdate([]byte(k), []byte("v"))
+	}
+	var order []string
+	it := trie.NewIterator(tr.NodeIterator(nil))
+	for it.Next() {
+		order = append(order, fmt.Sprintf("%q", it.Key))
+	}
+	t.Logf("inserted \"\", d, do, dog, doge; iteration yields %v (bytes.Compare order would be \"\", d, do, dog, doge)", order)
+}
